@@ -31,9 +31,9 @@ CLAIMED = {
         design="DESIGN.md §4 C16"),
     "C10": dict(
         technique="static analysis: agreement of writer and reader tables (array names, element types, record order) extracted from the clang AST of the summary writers and the three readers",
-        text="Decides narrowly: every SMSPEC array the legacy reader requires is written with a compatible element type; the UNSMRY record sequence SEQHDR,(MINISTEP,PARAMS float)+ is what the scanner accepts; the two ESMRY writers are siblings and emit exactly the ordered (name,type) sequence the ESMRY reader checks; V<n> vectors are float; combine/splitSummaryNumber are inverse. NOT decided (stated plainly): the positional seek arithmetic of ESmry::loadData/ExtESmry (offsets as a function of vector count and position), the time axis and restart chaining - an off-by-one in an offset formula is not caught.",
+        text="Decides narrowly: every SMSPEC array the legacy reader requires is written with a compatible element type; the UNSMRY record sequence SEQHDR,(MINISTEP,PARAMS float)+ is what the scanner accepts; the two ESMRY writers are siblings and emit exactly the ordered (name,type) sequence the ESMRY reader checks; V<n> vectors are float; combine/splitSummaryNumber are inverse. NOT decided (stated plainly): the positional seek arithmetic of ESmry::loadData/ExtESmry (offsets as a function of vector count and position), the time axis and restart chaining - an off-by-one in an offset formula is not caught. A counter that shadows the size of a growing member container in the ESmry/ExtESmry constructors is not declared inside an enclosing loop (base-run chains).",
         note="Trusted: none beyond the AST. This check covers only the structural clause of the property.",
-       A counter that shadows the size of a growing member container in the ESmry/ExtESmry constructors is not declared inside an enclosing loop (base-run chains).  design="DESIGN.md §4 C10"),
+        design="DESIGN.md §4 C10"),
     "C07": dict(
         technique="static analysis: constants of EclIOdata.hpp against the published layout, switch/table pairing, write/read sequence extraction of the 16-byte header, bracket (head-data-tail) order rule per block loop, endian-flip pairing, sibling agreement of the block-geometry derivation (rational normal form), size formula normal form (clang AST)",
         text="Decides: the 28 layout constants equal the published Eclipse values (also catches symmetric changes the round-trip tests cannot see); both block tables pair each array type with its own constants; the binary header is written and read as 4+8+4+4+4 with both markers byte-swapped and checked; the formatted header is 30 characters; every block is written head-data-tail with head = tail = swapped byte count and the reader checks element-count range, short blocks and head == tail; each numeric type crosses the swap of its own type once in each direction; writer, reader and sizeOnDisk derive the block geometry identically incl. the C0NN adjustment; type strings map to the same enumerator in both directions; LOGI encoding; the sizeOnDiskBinary formula. Not decided: value round trip, number formatting (make_real_string_*), behaviour at specific lengths.",
